@@ -77,7 +77,7 @@ func c01TypedSpace(tier string) *core.Space {
 	cases := c01TypedCases(tier)
 	name := "opt-in-type-checks(luahelper.json entry file)"
 	return &core.Space{
-		Name: name, N: int64(len(cases)), Chunk: 40, RecycleEvery: 20, PerCaseTimeoutS: 60,
+		Name: name, N: int64(len(cases)), Chunk: 20, RecycleEvery: 20, PerCaseTimeoutS: 30, ChunkTimeoutS: 90,
 		Describe: func(i int64) interface{} { return map[string]interface{}{"files": cases[i].files()} },
 		Run: func(i int64, r *core.Result) {
 			c := cases[i]
